@@ -1,5 +1,6 @@
 import Driver.Proto
 import Driver.Modelled
+import Model.Audit
 /-!
 # `vaktdrv`: one case per line in, one result per line out
 -/
@@ -79,6 +80,13 @@ def handle (toks : List String) : Option String :=
       | "prefix" => pure ("ok " ++ showB (r.matchesPrefix w))
       | "dollar" => pure ("ok " ++ showB (r.acceptsDollar w))
       | _ => none
+  | "RENDER" :: cls :: ts => do
+    let ps ← full (pCounted pPolicy ts)
+    let c ← (match cls with
+      | "nop" => some MsgCls.nop | "uid" => some MsgCls.uid | "desc" => some MsgCls.desc
+      | "count" => some MsgCls.count | _ => none)
+    if ps.any (fun p => (PyVal.pyStr p.uid).isNone || (PyVal.pyStr p.description).isNone) then pure "unmodelled"
+    else pure ("ok " ++ showStr (renderMsg c ps))
   | "SCAN" :: ts => do
     let (s, ts) ← pChar ts
     let (t, ts) ← pChar ts
